@@ -290,6 +290,18 @@ def plan(prog, tier):
                 attempts.append((ti, ("range", ni, 2), None))
                 attempts.append((ti, ("range", ni, 3), {"force": True}))
     rnd.shuffle(attempts)
+    # stratified order: first every documented option of every transformation
+    # on every loop (where most transformations get past the type check and
+    # refuse late), then the rest - a prefix of the plan (quick tier) then
+    # contains all of the former
+    loops = set(i for i, n in enumerate(nodes)
+                if any("Loop" in c.__name__ for c in type(n).__mro__))
+
+    def late(a):
+        return (a[1][0] == "node" and a[1][1] in loops and a[2] is not None
+                and a[2] != {"force": True})
+    attempts = [a for a in attempts if late(a)] + \
+               [a for a in attempts if not late(a)]
     return attempts, len(nodes), [t[0] for t in trans]
 
 
